@@ -40,6 +40,7 @@ class CallMixin:
             for st2, args in self.ev_args(n.args, want_args, st1, sink):
                 for st3, kwvals in self.ev_list([k.value for k in n.keywords], st2, sink):
                     kwargs = {k.arg: v for k, v in zip(n.keywords, kwvals)}
+                    self._arg_nodes = (list(n.args), {k.arg: k.value for k in n.keywords})
                     yield from self.apply(f, args, kwargs, st3, sink, n)
 
     @staticmethod
@@ -410,7 +411,21 @@ class CallMixin:
             st = st.assume(z3.ForAll([o], inv))
         return st
 
+    def param_lvalues(self, c, args, n):
+        """map callee parameter names to the caller's argument expressions (for in-place mutation)"""
+        nodes, kwnodes = getattr(self, "_arg_nodes", ([], {}))
+        self._arg_nodes = ([], {})
+        names = list(c.params.keys())
+        off = len(args) - len(nodes) if len(args) >= len(nodes) else 0  # bound self
+        out = {}
+        for i, nd in enumerate(nodes):
+            if i + off < len(names):
+                out[names[i + off]] = nd
+        out.update(kwnodes)
+        return out
+
     def call_contract(self, c, args, kwargs, st, sink, n, awaited=False):
+        lv = self.param_lvalues(c, args, n)
         if st.binder and not (c.returns_expr is not None or c.pure) and st.mode != "spec":
             raise Unsupported(f"call of non-functional {c.key} inside a comprehension / generator body", n)
         bound = self.bind_params(c, args, kwargs, n)
@@ -431,8 +446,10 @@ class CallMixin:
             goal = z3.And(self.lex_lt(callee_m, caller_m), *[m.z >= 0 for m in callee_m])
             self.emit("decreases", f"{c.key}", n, pre, goal)
         # 3. normal return (spec expressions are read with the POST values of modified captures)
-        post = self.havoc_modifies(c, c.modifies, env, st, pre)
+        post, newvals = self.havoc_params(c, c.modifies, lv, st, sink, n)
+        post = self.havoc_modifies(c, [m for m in c.modifies if m not in c.params], env, post, pre)
         env_post = self.spec_env_for_call(c, bound, post)
+        env_post.update(newvals)
         if c.returns_expr is not None:
             res = self.spec(c.returns_expr, post, env=env_post, old=pre, want_bool=False)
             if c.returns is not None:
@@ -452,8 +469,10 @@ class CallMixin:
             else:
                 cond, eens, emods, exact = spec, [], None, True
             mods = emods if emods is not None else (c.on_exc_modifies if c.on_exc_modifies is not None else c.modifies)
-            est = self.havoc_modifies(c, mods, env, st, pre)
+            est, newvals_e = self.havoc_params(c, mods, lv, st, sink, n)
+            est = self.havoc_modifies(c, [m for m in mods if m not in c.params], env, est, pre)
             env_e = self.spec_env_for_call(c, bound, est)
+            env_e.update(newvals_e)
             cz = self.spec(cond, est, env=env_e, old=pre)
             ez = [self.spec(e, est, env=env_e, old=pre) for e in list(eens) + list(c.exc_ensures)]
             if self.feasible(est, zand(cz, *ez)):
@@ -461,6 +480,19 @@ class CallMixin:
         if c.meta_noreturn if hasattr(c, "meta_noreturn") else False:
             return
         yield normal, res
+
+    def havoc_params(self, c, mods, lv, st, sink, n):
+        """parameters mutated in place by the callee: havoc the caller's lvalue passed for them"""
+        newvals = {}
+        for m in mods:
+            if m in c.params and m not in c.captures:
+                node = lv.get(m)
+                if node is None:
+                    raise Unsupported(f"{c.key} mutates parameter {m} but the argument is not an lvalue", n)
+                nv, st = self.fresh(c.params[m], m, st)
+                st = self.write_back(node, st, nv, sink)
+                newvals[m] = nv
+        return st, newvals
 
     def resolve_exc(self, name, c=None):
         if isinstance(name, type):
